@@ -89,6 +89,7 @@ class State(object):
         s.qinfo = self.qinfo
         s.entry = self.entry
         s.cond_ctx = getattr(self, 'cond_ctx', False)
+        s.bound = getattr(self, 'bound', ())
         s.ofields = dict(self.ofields)
         s.epoch = self.epoch
         return s
@@ -599,11 +600,16 @@ class Executor(object):
             if all(isinstance(v, VBool) for v in vals):
                 ts = [v.t for v in vals]
                 return [(st, VBool(z3.And(ts) if is_and else z3.Or(ts)))]
-            r = vals[-1]
-            for v in reversed(vals[:-1]):
-                t = self.truth(st, v)
-                r = ite(t, r, v) if is_and else ite(t, v, r)
-            return [(st, r)]
+            try:
+                r = vals[-1]
+                for v in reversed(vals[:-1]):
+                    t = self.truth(st, v)
+                    r = ite(t, r, v) if is_and else ite(t, v, r)
+                return [(st, r)]
+            except Unsupported:
+                # operands of different shapes: in a specification only the truth value matters
+                ts = [self.truth(st, v) for v in vals]
+                return [(st, VBool(z3.And(ts) if is_and else z3.Or(ts)))]
 
         merged = self.boolop_pure(st, node, is_and)
         if merged is not None:
@@ -911,7 +917,7 @@ class Executor(object):
         return VFunc('extern', full, name=full)
 
     def obj_getattr(self, st, v, attr, node=None):
-        fields = st.heap[v.ref]
+        fields = st.heap.get(v.ref, {})
         if attr in fields:
             return [(st, fields[attr])]
         if v.cls.startswith('$'):
@@ -1153,8 +1159,9 @@ class Executor(object):
                 o.spec = True
                 o.pc = st.pc
                 for k_, v_ in st.env.items():
-                    if k_.startswith('_') and k_ not in o.env:
+                    if (k_.startswith('_') and k_ not in o.env) or k_ in getattr(st, 'bound', ()):
                         o.env[k_] = v_
+                o.bound = getattr(st, 'bound', ())
                 return [(st, self.ev1(o, node.args[0]))]
             if f == 'implies':
                 a = self.ev1(st, node.args[0])
@@ -1220,6 +1227,7 @@ class Executor(object):
         else:
             bvs = [z3.Int(uid('q_' + n)) for n in names]
         sub = st.fork()
+        sub.bound = tuple(getattr(st, 'bound', ())) + tuple(names)
         for n, b in zip(names, bvs):
             sub.env[n] = VStr(b) if which == 'forall_str' else VInt(b)
         if which == 'forall_str':
@@ -1309,6 +1317,7 @@ class Executor(object):
         sub.spec = True
         sub.env = dict(zip(params, args))
         sub.env.update({k: v for k, v in st.env.items() if k.startswith('_')})
+        sub.bound = ()
         return self.ev1(sub, body)
 
     def instantiate(self, st, ci, args, kwargs, node):
@@ -1539,8 +1548,15 @@ class Executor(object):
                 if isinstance(base, VOpaque):
                     val = args[int(src[3:])] if src.startswith('arg') and len(args) > int(src[3:]) else \
                         kwargs.get(src, NONE)
-                    self.opaque_setattr(s2, base, attr, val)
-                    s2.trace.pop()      # constructor field initialisation is not an observable event
+                    if getattr(s2, 'qidx', None) is not None and attr in tgt.get('opaque_fields', {}):
+                        # inside the generic iteration of a comprehension: the result is a function of the iteration
+                        # index; its field is fixed by a FACT (universally quantified by the comprehension), not by a
+                        # point update of the field store
+                        from .values import eq as _veq
+                        s2.assume(_veq(self.opaque_field(s2, base, attr), val))
+                    else:
+                        self.opaque_setattr(s2, base, attr, val)
+                        s2.trace.pop()      # constructor field initialisation is not an observable event
             if 'effect' in spec:
                 spec['effect'](self, s2, ev)
             outs.append((s2, res))
@@ -2349,6 +2365,10 @@ class Executor(object):
                     elif k3 == BREAK:
                         res.append((s3, (NEXT, None)))
                     else:
+                        if k3 == RETURN and linv.get('no_early_exit'):
+                            self.oblige(s3, z3.BoolVal(False), '%s.body.no_early_return' % tag, 'trace', where,
+                                        {'clause': 'the loop visits every element: no return from inside the loop (%s)'
+                                         % linv['no_early_exit']})
                         if k3 == RAISE:
                             for rt in linv.get('raise_trace', []):
                                 s3.iter_start_trace = n_trace0
